@@ -225,5 +225,5 @@ def cases(draw, quick=True):
 def run_shard(ctx: core.Ctx) -> core.ShardResult:
     res = core.ShardResult()
     core.run_hypothesis(ctx, res, cases(ctx.tier == 'quick'), check,
-                        ctx.n(400, 8000))
+                        ctx.n(200, 8000))
     return res
